@@ -511,6 +511,14 @@ impl Vm {
       },
     });
 
+    // the methods of these classes expect a receiver that is not an instance
+    if self.builtin.primitives.is_value_class(super_class) {
+      return self.runtime_error_from_str(
+        self.builtin.errors.runtime,
+        &format!("Cannot inherit from class {}.", super_class.name()),
+      );
+    }
+
     let hooks = GcHooks::new(self);
     let mut sub_class = self.fiber.peek(0).to_obj().to_class();
 
